@@ -78,16 +78,21 @@ HashLsSeq == <<PLit(VInt(1)), PLit(VStr("a")), PType("int"), PType("str"), PM(">
 \* compound keys (tuple of constants, tuple with a type, M expression, Or of constants)
 KeysP == {PLit(VStr("a")), PLit(VInt(1)), PType("str"), PType("object"),
           POptional(VStr("a"), FALSE, VNone), POptional(VStr("a"), TRUE, VInt(5)), POptional(VStr("b"), TRUE, VNone),
-          PRequired(PType("str")), PRequired(PType("object"))} \cup
-         (IF Wide THEN {PType("int"), PTuple(<<PLit(VStr("a")), PLit(VInt(1))>>), PTuple(<<PLit(VStr("a")), PType("int")>>),
-                        PM("!=", VStr("b")), POr(<<PLit(VStr("a")), PLit(VStr("b"))>>, "ctor", FALSE, VNone),
-                        PRequired(PM("!=", VStr("b")))}
-          ELSE {})
-ValsP == IF Wide THEN {PType("int"), PType("object"), PLit(VInt(1)), PType("str")} ELSE {PType("int"), PType("object"), PLit(VInt(1))}
+          PRequired(PType("str")), PRequired(PType("object")),
+          PType("int"), PTuple(<<PLit(VStr("a")), PLit(VInt(1))>>), PTuple(<<PLit(VStr("a")), PType("int")>>),
+          PM("!=", VStr("b")), POr(<<PLit(VStr("a")), PLit(VStr("b"))>>, "ctor", FALSE, VNone),
+          PRequired(PM("!=", VStr("b")))}
+ValsP == IF Wide THEN {PType("int"), PType("object"), PLit(VInt(1))} ELSE {PType("int"), PType("object")}
+\* keys of the two-entry dict patterns
+KeysPP == {PLit(VStr("a")), PLit(VInt(1)), PType("str"), POptional(VStr("a"), TRUE, VInt(5)),
+           POptional(VStr("b"), TRUE, VNone), PRequired(PType("str"))} \cup
+          (IF Wide THEN {PType("object"), POptional(VStr("a"), FALSE, VNone), PTuple(<<PLit(VStr("a")), PLit(VInt(1))>>),
+                         PM("!=", VStr("b"))}
+           ELSE {})
 Entries(keys, vals) == {<<k, v>> : k \in keys, v \in vals}
-DictPats(keys, vals1, vals2) ==
-  {PDict(<<>>)} \cup {PDict(<<e>>) : e \in Entries(keys, vals1)} \cup
-  {PDict(<<e1, e2>>) : e1 \in Entries(keys, vals2), e2 \in Entries(keys, vals2)}
+DictPats(keys1, vals1, keys2, vals2) ==
+  {PDict(<<>>)} \cup {PDict(<<e>>) : e \in Entries(keys1, vals1)} \cup
+  {PDict(<<e1, e2>>) : e1 \in Entries(keys2, vals2), e2 \in Entries(keys2, vals2)}
 DistinctKeys(p) == p.op = "dict" => (Len(p.items) = 2 => p.items[1][1] # p.items[2][1] /\
    ~(KeyPat(p.items[1][1]).op = "lit" /\ KeyPat(p.items[2][1]).op = "lit" /\ PyEq(KeyPat(p.items[1][1]).v, KeyPat(p.items[2][1]).v)))
 
@@ -97,7 +102,7 @@ Seqs(C) == {PList(s) : s \in SeqsUpTo(C, 2)} \cup {PTuple(s) : s \in SeqsUpTo(C,
 Sets1 == {PSet(s) : s \in SmallSetsP(HashLsSeq)} \cup {PFrozenset(s) : s \in {<<>>, <<PType("int")>>, <<PLit(VStr("a"))>>}}
 
 P1 == Bools(Ls) \cup {PNot(c, "ctor") : c \in Leaves} \cup Seqs(Ls) \cup Sets1 \cup
-      {p \in DictPats(KeysP, Ls, ValsP) : DistinctKeys(p)}
+      {p \in DictPats(KeysP, Ls, KeysPP, ValsP) : DistinctKeys(p)}
 
 \* a selection of depth-1 patterns used as children at depth 2
 Sel1 == {PList(<<PType("int")>>), PList(<<PLit(VStr("a")), PType("int")>>), PTuple(<<PType("int")>>),
@@ -114,7 +119,7 @@ KeysP2 == {PLit(VStr("a")), PType("str"), POptional(VStr("a"), TRUE, VInt(5)), P
 P2 == {p \in Bools(C2) : WithSel(p.c, Sel1)} \cup {PNot(c, "ctor") : c \in Sel1} \cup
       {p \in Seqs(C2) : WithSel(IF p.op = "list" THEN p.alts ELSE p.elems, Sel1)} \cup
       {PSet(<<PTuple(<<PType("int")>>)>>)} \cup
-      {p \in DictPats(KeysP2, Sel1, Sel1 \ {PSet(<<PType("int")>>)}) : DistinctKeys(p)}
+      {p \in DictPats(KeysP2, Sel1, KeysP2, Sel1 \ {PSet(<<PType("int")>>)}) : DistinctKeys(p)}
 
 \* depth 3: combinators and containers over a selection of depth-2 patterns
 Sel2 == {PList(<<PDict(<< <<PLit(VStr("a")), PType("int")>> >>)>>),
@@ -138,25 +143,37 @@ VARIABLES pattern, target, pred, phase
 vars == <<pattern, target, pred, phase>>
 
 DefaultValue == VInt(77)
+\* (the dumped form of an outcome lists errs as a sequence: `tlc -dump` sets are not parsed)
 Predict(t, p) ==
-  [o  |-> Ev("auto", t, PMatch(p, FALSE, VNone)),            \* glom(t, Match(p)) = verify(t)
-   od |-> Ev("auto", t, PMatch(p, TRUE, DefaultValue))]     \* glom(t, Match(p, default=77))
+  [o  |-> Dumped(Ev("auto", t, PMatch(p, FALSE, VNone))),            \* glom(t, Match(p)) = verify(t)
+   od |-> Dumped(Ev("auto", t, PMatch(p, TRUE, DefaultValue)))]     \* glom(t, Match(p, default=77))
 
 Init == pattern = PType("object") /\ target = VNone /\ pred = Predict(VNone, PType("object")) /\ phase = 0
 ChoosePattern ==
   /\ phase = 0 /\ phase' = 1
   /\ pattern' \in Patterns
   /\ UNCHANGED <<target, pred>>
+\* patterns that never look inside the items of a target (leaves and And / Or / Not of leaves)
+\* are paired with the targets of depth <= 1 only
+Shallow(p) == p \in Leaves \/ (p.op \in {"and", "or", "not"} /\ \A i \in 1..Len(p.c) : p.c[i] \in Leaves)
+\* ... and a container pattern never looks inside a target of another class (the type rule at
+\* the root decides): of those, only the targets of depth <= 1 are enumerated
+TargetsFor(p) ==
+  IF Shallow(p) THEN Atoms0 \cup Depth1
+  ELSE IF p.op \in {"list", "set", "frozenset", "tuple", "dict"}
+       THEN Atoms0 \cup Depth1 \cup {t \in Targets : PyIsInstance(t, p.op)}
+  ELSE Targets
 ChooseTarget ==
   /\ phase = 1 /\ phase' = 2
-  /\ target' \in Targets
+  /\ target' \in TargetsFor(pattern)
   /\ pred' = Predict(target', pattern)
   /\ UNCHANGED pattern
 Next == ChoosePattern \/ ChooseTarget
 
 \* ---- laws -------------------------------------------------------------------------------
 Case == phase = 2
-O == pred.o
+O == Undumped(pred.o)
+OD == Undumped(pred.od)
 \* the universe stays inside the modelled fragment
 Fragment == InFragment("match", pattern) /\ StrsOK(target)
 \* success exactly on conforming targets
@@ -175,7 +192,7 @@ ErrClass == Case => /\ LawErrs(O)
                           => O.errs = {"TypeMatchError"})
                     /\ (pattern.op \in {"lit", "regex", "pred", "not", "mtruthy"} /\ ~O.ok /\ Clean(O) => O.errs = {"MatchError"})
 \* Match(default=) returns the default instead of a GlomError, and changes nothing else
-Default == Case => /\ (O.ok => pred.od = O)
-                   /\ (Caught(O) => pred.od.ok /\ pred.od.v = DefaultValue)
-                   /\ (Foreign(O) => pred.od.errs = O.errs)
+Default == Case => /\ (O.ok => OD = O)
+                   /\ (Caught(O) => OD.ok /\ OD.v = DefaultValue)
+                   /\ (Foreign(O) => OD.errs = O.errs)
 ====================================================================================
